@@ -95,6 +95,53 @@ inline std::string crash_signature(const std::string &err, int status)
 	return kind + "@" + func;
 }
 
+// Turn "pcs:addr,addr,..." (recorded by a child at an injected allocation failure) into "f1<-f2<-f3": the innermost
+// frames that are neither allocator wrappers nor the simulated kernel.
+inline std::string symbolize_site(const std::string &raw)
+{
+	// symbol table of this very binary (children are forks of it, ASLR is off): nm once, binary search afterwards
+	static std::vector<std::pair<unsigned long, std::string>> syms;
+	static unsigned long base = 0;
+	static std::map<std::string, std::string> cache;
+	if (!base) {
+		char exe[4096]; ssize_t el = readlink("/proc/self/exe", exe, sizeof exe - 1); exe[el > 0 ? el : 0] = 0;
+		std::ifstream maps("/proc/self/maps"); std::string line;
+		while (std::getline(maps, line)) if (line.find(exe) != std::string::npos) { base = strtoul(line.c_str(), nullptr, 16); break; }
+		if (!base) base = 1;
+		std::string cmd = "nm --defined-only -n /proc/" + std::to_string(getpid()) + "/exe 2>/dev/null";
+		FILE *f = popen(cmd.c_str(), "r");
+		char l[2048];
+		if (f) { while (fgets(l, sizeof l, f)) { unsigned long a; char t; char name[1500]; if (sscanf(l, "%lx %c %1499s", &a, &t, name) == 3 && (t == 't' || t == 'T' || t == 'w' || t == 'W')) syms.emplace_back(a, name); } pclose(f); }
+	}
+	auto lookup = [&](unsigned long pc) -> std::string {
+		unsigned long off = pc - base - 1;
+		size_t lo = 0, hi = syms.size();
+		while (lo + 1 < hi) { size_t mid = (lo + hi) / 2; if (syms[mid].first <= off) lo = mid; else hi = mid; }
+		if (syms.empty() || syms[lo].first > off) return "?";
+		return syms[lo].second;
+	};
+	std::string out;
+	size_t pos = 0;
+	while (pos < raw.size()) {
+		size_t plus = raw.find(" + ", pos);
+		std::string part = raw.substr(pos, plus == std::string::npos ? std::string::npos : plus - pos);
+		pos = plus == std::string::npos ? raw.size() : plus + 3;
+		if (part.compare(0, 4, "pcs:") != 0) { out += (out.empty() ? "" : " + ") + part; continue; }
+		std::vector<std::string> addrs; std::stringstream ss(part.substr(4)); std::string a;
+		while (std::getline(ss, a, ',')) addrs.push_back(a);
+		for (auto &x : addrs) if (!cache.count(x)) cache[x] = lookup(strtoul(x.c_str(), nullptr, 16));
+		std::string site; int kept = 0;
+		for (auto &x : addrs) {
+			const std::string &f = cache[x];
+			if (kept >= 3) break;
+			if (f.empty() || f == "?" || f.compare(0, 5, "simk_") == 0 || f.find("note_alloc_failure") != std::string::npos || f == "cjet_malloc" || f == "cjet_calloc" || f.find("backtrace") != std::string::npos || f.find("alloc_should_fail") != std::string::npos) continue;
+			site += (site.empty() ? "" : "<-") + f; kept++;
+		}
+		out += (out.empty() ? "" : " + ") + site;
+	}
+	return out;
+}
+
 using Setup = std::function<void(World &)>;
 
 inline CaseResult run_case(const Scenario &sc, const RunOpts &opt, const Setup &setup = {}, int timeout_s = 30)
@@ -200,6 +247,9 @@ struct Campaign {
 	// which rule ids of the verdict count as violations of this property (prefix match)
 	std::vector<std::string> rules;
 	bool crashes_count = true;
+	bool noshrink = false;
+	std::vector<std::pair<std::string, std::string>> alias; // rule prefix -> name under which this property reports it
+	std::string aliased(const std::string &r) const { for (auto &a : alias) if (r.compare(0, a.first.size(), a.first) == 0) return a.second; return r; }
 	std::vector<Known> known;
 	// bookkeeping
 	long evaluations = 0, timeouts = 0, inconclusive = 0;
@@ -218,7 +268,18 @@ struct Campaign {
 	}
 	bool is_known(const std::string &sig, std::string *which = nullptr) const
 	{
-		for (auto &k : known) if (sig.find(k.signature) != std::string::npos) { if (which) *which = k.signature; return true; }
+		for (auto &k : known) {
+			// "a && b": every part must occur in the failure's signature
+			bool all = true; size_t pos = 0;
+			while (all) {
+				size_t e = k.signature.find(" && ", pos);
+				std::string part = k.signature.substr(pos, e == std::string::npos ? std::string::npos : e - pos);
+				if (sig.find(part) == std::string::npos) all = false;
+				if (e == std::string::npos) break;
+				pos = e + 4;
+			}
+			if (all) { if (which) *which = k.signature; return true; }
+		}
 		return false;
 	}
 
@@ -230,18 +291,23 @@ struct Campaign {
 		if (record) evaluations++;
 		if (r.timed_out) { if (record) timeouts++; return out; }
 		std::string which;
+		// an injected allocation failure is identified by its call site, so that distinct root causes stay distinct
+		std::string site;
+		for (auto &t : r.vd.transcripts) if (t.compare(0, 10, "ALLOCSITE ") == 0) site = " @alloc " + symbolize_site(t.substr(10));
+		if (site.empty()) { std::string all; size_t p = 0; while ((p = r.stderr_text.find("ALLOC-FAIL-SITE ", p)) != std::string::npos) { size_t e = r.stderr_text.find('\n', p); all += (all.empty() ? "" : " + ") + r.stderr_text.substr(p + 16, e - p - 16); p = e == std::string::npos ? r.stderr_text.size() : e; } if (!all.empty()) site = " @alloc " + symbolize_site(all); }
 		if (r.crashed) {
 			if (crashes_count) {
-				if (is_known(r.crash_sig, &which)) { if (record) known_hits[which]++; }
-				else out.push_back({r.crash_sig, r.stderr_text.substr(0, 6000)});
+				if (is_known(r.crash_sig + site, &which)) { if (record) known_hits[which]++; }
+				else out.push_back({r.crash_sig + site, r.stderr_text.substr(0, 6000)});
 			}
 		}
 		for (auto &v : r.vd.v) {
 			if (v.rule.compare(0, 13, "inconclusive/") == 0) { if (record) inconclusive++; continue; }
 			if (!rule_relevant(v.rule)) { if (record) stat_sum["other_rule:" + v.rule]++; continue; }
-			std::string sig = v.rule + " | " + v.detail;
+			std::string sig = aliased(v.rule) + site + " | " + v.detail;
 			if (is_known(sig, &which)) { if (record) known_hits[which]++; continue; }
-			out.push_back({v.rule, v.detail});
+			bool dup = false; for (auto &o : out) if (o.signature == aliased(v.rule) + site) dup = true;
+			if (!dup) out.push_back({aliased(v.rule) + site, v.detail});
 		}
 		if (record) {
 			for (auto &l : r.vd.labels) labels[l]++;
